@@ -2,7 +2,7 @@
 
 Contract for every coalescent `log_prob` (and the model `_call` wrappers):
    requires  sampling times (any: contemporaneous, serial, tied), coalescent times forming a genealogy
-             (never fewer than two lineages at a coalescence), population sizes > 0, growth rates real (!= 0)
+             (never fewer than two lineages at a coalescence), population sizes > 0, growth rates real (generic != 0; = 0 as separate scenarios)
    ensures   result ≡ - Σ_intervals C(k,2) ∫ 1/N  - Σ_coal log N(t)      (specs/kingman.py)
 The coalescent times are symbolic and UNORDERED: the forking argsort explores every feasible ordering
 of the events (including their interleaving with sampling times and grid points); each path is an
@@ -49,7 +49,7 @@ META = {
         "ties between a symbolic coalescent time and a sampling time / grid point are measure-zero paths explored with the stable order only",
         "torch.argsort/gather/cumsum/bucketize/where meaning as implemented in vt.symtorch (cross-checked numerically each run)",
     ],
-    "assumptions": ["machine arithmetic treated as mathematical (reals)", "growth rate 0 is outside the domain of the exponential models (0/0 in the closed form)"],
+    "assumptions": ["machine arithmetic treated as mathematical (reals) in the V obligations; the float range of the growth rate is decided by the bounded C08.growth_range obligations", "symbolic growth rates are in generic position (!= 0); growth exactly 0 (N constant) is proved separately (C08.exponential.zero_growth, C08.piecewise_exponential.flat_pieces)"],
 }
 
 MANIFEST = {
@@ -58,7 +58,7 @@ MANIFEST = {
             "event ordering is explored by forking and on each path the result is proved identical to the Kingman formula "
             "generated independently from the statement, for all positive population sizes and real growth rates. Bounded in "
             "the number of taxa (<=4/5) and grid size (<=3).",
-    "note": "Shape-bounded (taxa, grid); reals instead of doubles; growth=0 excluded; measure-zero ties only with the stable order.",
+    "note": "Shape-bounded (taxa, grid); reals instead of doubles; growth=0 proved as separate scenarios; measure-zero ties only with the stable order.",
     "technique": "sidecar contracts + symbolic execution with path forking over event orderings + exact normal form (exp/log theory) against an independent Kingman oracle",
 }
 
@@ -129,7 +129,10 @@ def scn_coalescent(model, T, scheme, hbatch, tbatch, grid=None):
             elif model == "exponential":
                 theta = mk.real("theta", tbatch + (1,), lo=0)
                 g = mk.real("growth", tbatch + (1,))
-                mk.require(el(g, tuple(0 for _ in tbatch) + (0,)) != 0) if mk.symbolic else None
+                if mk.symbolic:
+                    # generic position; growth exactly 0 (the removable 0/0 of the closed form, N constant) is the model "exponential_zero"
+                    for b in itertools.product(*[range(s_) for s_ in tbatch]):
+                        mk.require(el(g, b + (0,)) != 0)
                 dist = co.ExponentialCoalescent(theta, g)
                 mkdemo = lambda b: kingman.Exponential(el(theta, tb_(b) + (0,)), el(g, tb_(b) + (0,)))
             elif model == "skyride":
@@ -165,6 +168,29 @@ def scn_coalescent(model, T, scheme, hbatch, tbatch, grid=None):
                 G = len(grid)
                 theta = mk.real("theta", tbatch + (1,), lo=0)
                 g = mk.real("growth", tbatch + (G + 1,))
+                if mk.symbolic:
+                    for b in itertools.product(*[range(s_) for s_ in tbatch]):
+                        for i in range(G + 1):
+                            mk.require(el(g, b + (i,)) != 0)
+                dist = co.PiecewiseExponentialCoalescentGrid(theta, g, torch.tensor(grid, dtype=torch.float64))
+                mkdemo = lambda b: kingman.GridExponential(el(theta, tb_(b) + (0,)), [el(g, tb_(b) + (i,)) for i in range(G + 1)], grid)
+            elif model == "exponential_zero":
+                # growth exactly 0: N(t) = theta exp(-0 t) = theta
+                theta = mk.real("theta", tbatch + (1,), lo=0)
+                g = torch.zeros(tbatch + (1,), dtype=torch.float64)
+                dist = co.ExponentialCoalescent(theta, g)
+                mkdemo = lambda b: kingman.Constant(el(theta, tb_(b) + (0,)))
+            elif model == "piecewise_exponential_zero":
+                # every second piece flat (growth exactly 0), starting with the first
+                G = len(grid)
+                theta = mk.real("theta", tbatch + (1,), lo=0)
+                gs = mk.real("growth", tbatch + (G + 1,))
+                if mk.symbolic:
+                    for b in itertools.product(*[range(s_) for s_ in tbatch]):
+                        for i in range(G + 1):
+                            mk.require(el(gs, b + (i,)) != 0)
+                keep = torch.tensor([float(i % 2) for i in range(G + 1)], dtype=torch.float64)
+                g = gs * keep
                 dist = co.PiecewiseExponentialCoalescentGrid(theta, g, torch.tensor(grid, dtype=torch.float64))
                 mkdemo = lambda b: kingman.GridExponential(el(theta, tb_(b) + (0,)), [el(g, tb_(b) + (i,)) for i in range(G + 1)], grid)
             else:
@@ -426,10 +452,82 @@ def replay_wrapper_history(args):
     return True, "held"
 
 
+# ------------------------------------------------------------------------------------------
+# exponential models over the whole range of the growth rate (0, tiny, large |growth x time|): value and reference in 50-digit arithmetic
+# ------------------------------------------------------------------------------------------
+_GROWTH_CASES = {
+    # label: (model, tips, internal heights, theta, growth(s), grid)
+    "exponential,growth=0": ("exp", [0.0, 0.0, 0.0], [1.0, 2.0], 3.0, [0.0], None),
+    "exponential,growth=1e-12": ("exp", [0.0, 0.0, 0.0], [1.0, 2.0], 3.0, [1e-12], None),
+    "exponential,growth=-1e-9": ("exp", [0.0, 0.5, 0.0], [1.0, 2.0], 3.0, [-1e-9], None),
+    "exponential,growth=1e-8,serial": ("exp", [0.0, 0.0, 0.0, 0.0], [2.0, 6.0, 12.0], 3.0, [1e-8], None),
+    "exponential,growth=0.3": ("exp", [0.0, 0.5, 0.0], [1.0, 2.0], 3.0, [0.3], None),
+    "exponential,growth=-4,heights to 200": ("exp", [0.0, 0.0, 0.0], [100.0, 200.0], 3.0, [-4.0], None),
+    "piecewise exponential,growth=[0,0]": ("pexp", [0.0, 0.0, 0.0], [1.0, 2.0], 3.0, [0.0, 0.0], [1.5]),
+    "piecewise exponential,growth=[0.5,0]": ("pexp", [0.0, 0.0, 0.0], [1.0, 2.0], 3.0, [0.5, 0.0], [1.5]),
+    "piecewise exponential,growth=[0,-0.7,0.2]": ("pexp", [0.0, 0.5, 0.0, 0.0], [1.0, 2.0, 3.5], 3.0, [0.0, -0.7, 0.2], [1.5, 2.5]),
+    "piecewise exponential,growth=[1e-10,0.3]": ("pexp", [0.0, 0.0, 0.0], [1.0, 2.0], 3.0, [1e-10, 0.3], [1.5]),
+    "piecewise exponential,growth=[0.4,-0.2]": ("pexp", [0.0, 0.0, 0.0], [1.0, 2.0], 3.0, [0.4, -0.2], [1.5]),
+}
+
+
+def _growth_case(label):
+    import mpmath
+    import torchtree.evolution.coalescent as co
+    model, tips, internal, theta, growth, grid = _GROWTH_CASES[label]
+    mpmath.mp.dps = 50
+    M = mpmath.mpf
+    if model == "exp":
+        demo = kingman.Exponential(M(theta), M(growth[0]))
+    else:
+        demo = kingman.GridExponential(M(theta), [M(g) for g in growth], [M(g) for g in grid])
+    want = float(kingman.log_density([M(t) for t in tips], [M(t) for t in internal], demo))
+    t64 = lambda v: torch.tensor(v, dtype=torch.float64)
+    nh = t64(tips + internal)
+    try:
+        if model == "exp":
+            got = co.ExponentialCoalescent(t64([theta]), t64(growth)).log_prob(nh)
+        else:
+            got = co.PiecewiseExponentialCoalescentGrid(t64([theta]), t64(growth), t64(grid)).log_prob(nh)
+        got = float(got.reshape(-1)[0])
+    except Exception as e:
+        from vt.scenario import _raised_in_repo
+        if not _raised_in_repo(e):
+            raise
+        got = "%s: %s" % (type(e).__name__, str(e)[:100])
+    return got, want
+
+
+def _growth_bad(got, want):
+    return isinstance(got, str) or not (abs(got - want) <= 1e-9 * max(1.0, abs(want)))
+
+
+def ob_growth_range(label):
+    def fn():
+        got, want = _growth_case(label)
+        if _growth_bad(got, want):
+            model, tips, internal, theta, growth, grid = _GROWTH_CASES[label]
+            raise Refuted("%s (tips %s, coalescent times %s, theta %s, grid %s): log density %s, Kingman density of N(t) in 50-digit arithmetic %.12f"
+                          % (label, tips, internal, theta, grid, got if isinstance(got, str) else repr(got), want),
+                          witness={"case": label, "got": got if isinstance(got, str) else repr(got), "want": want},
+                          replay={"kind": "custom", "contract": "C08", "func": "replay_growth_range", "args": {"case": label}}, confirmed=True)
+        return {"backend": "numeric (50-digit reference vs real code)", "cases": 1, "statement": "%s: |log density - Kingman density of the documented N(t)| <= 1e-9 relative" % label}
+    return Ob("C08.growth_range[%s]" % label, "B", fn, clause="log density = Kingman density of the documented N(t) = theta exp(-growth t), including growth 0 (N constant), tiny growth and large |growth x time|", funcs=FUNCS)
+
+
+def replay_growth_range(args):
+    got, want = _growth_case(args["case"])
+    if _growth_bad(got, want):
+        return False, "%s: real log density %s, reference %.12f" % (args["case"], got, want)
+    return True, "agree: %.12f" % want
+
+
 def obligations(tier, seed):
     obs = []
     for kind in ("constant", "exponential", "skyride", "skygrid"):
         obs.append(ob_json_event_data(kind))
+    for label in _GROWTH_CASES:
+        obs.append(ob_growth_range(label))
     for kind in MODEL_WRAPPERS:
         obs.append(ob_wrapper_history(kind, 3 if tier == "quick" else 4))
         obs.append(ob_wrapper_dtype(kind))
@@ -469,6 +567,13 @@ def obligations(tier, seed):
             T = 3 if model in ("constant", "skyride") and tier == "thorough" else 2
             args = (model, T, "serial", hb, tb) + ((grid,) if grid else ())
             add("C08.%s[T=%d,serial,hbatch=%s,tbatch=%s]" % (model, T, hb, tb), args, "%s coalescent ≡ Kingman (batched)" % model)
+    for T in (2, 3):
+        for scheme in ("iso", "serial"):
+            add("C08.exponential.zero_growth[T=%d,%s]" % (T, scheme), ("exponential_zero", T, scheme, (), ()), "exponential coalescent at growth 0 ≡ Kingman with constant N")
+            for grid in ([0.7], [0.4, 2.5]):
+                add("C08.piecewise_exponential.flat_pieces[T=%d,%s,grid=%s]" % (T, scheme, grid), ("piecewise_exponential_zero", T, scheme, (), (), grid),
+                    "piecewise-exponential coalescent with flat pieces (growth 0) ≡ Kingman")
+    add("C08.exponential.zero_growth[T=2,serial,tbatch=(2,)]", ("exponential_zero", 2, "serial", (), (2,)), "exponential coalescent at growth 0 ≡ Kingman with constant N (batched)")
     for T in (2, 3):
         for scheme in ("iso", "serial"):
             add("C08.linear.equal_knots[T=%d,%s,grid=[0.4, 2.5]]" % (T, scheme), ("linear_equal_knots", T, scheme, (), (), [0.4, 2.5]), "piecewise-linear coalescent with a flat piece inside the grid ≡ Kingman")
